@@ -10,6 +10,7 @@ class Scenario:
     def __init__(self, seed, monitors, conf_kw=None, handshake=True, n_children=1):
         kw = dict(dpd=600, lifetime=3600, child_lifetime=300)
         kw.update(conf_kw or {})
+        self.dpd = kw['dpd']
         self.sim, self.a, self.b = S.make_pair(seed, **kw)
         self.sim.case = {'seed': seed, 'conf': {k: v for k, v in kw.items()}, 'actions': []}
         self.monitors = monitors
@@ -94,6 +95,10 @@ class Scenario:
 
     def settle(self):
         self.sim.case['actions'].append(('settle',))
+        self.sim.settle()
+        # "delivered or timed out" includes dead-peer detection: an endpoint whose peer gave up unilaterally
+        # only learns it from its DPD probe, so let one DPD interval pass and drain again
+        self.sim.tick_all(self.dpd + 1)
         self.sim.settle()
 
 
